@@ -126,16 +126,30 @@ def _close(a, b, tol=1e-9):
     return abs(a - b) <= tol * (1 + abs(b))
 
 
+def _mk_loss(cls, omit, **kw):
+    """omit=True: every option whose value is the DOCUMENTED default is left out of the constructor call, so the defaults the
+    code really applies are what is compared with the definition (p=2; identity weighting, no standardisation; Gaussian
+    low-pass with f=0.8; Silverman bandwidth; uniform 1/D weights; no filters)."""
+    if omit:
+        from black_it.loss_functions.fourier import gaussian_low_pass_filter as _g
+
+        doc = {"p": 2, "covariance_mat": "identity", "standardise_moments": False, "frequency_filter": _g, "f": 0.8, "h": "silverman", "coordinate_weights": None, "coordinate_filters": None}
+        for k, dv in doc.items():
+            if k in kw and (kw[k] is dv or (not isinstance(kw[k], np.ndarray) and not callable(dv) and dv is not None and kw[k] == dv)):
+                del kw[k]
+    return cls(**kw)
+
+
 # ---------------------------------------------------------------- Minkowski
-def case_minkowski(p, E, N, D, wmode, fmode):
-    name = f"minkowski-p{p}-E{E}-N{N}-D{D}-{wmode}-{fmode}"
+def case_minkowski(p, E, N, D, wmode, fmode, omit=False):
+    name = f"minkowski-p{p}-E{E}-N{N}-D{D}-{wmode}-{fmode}" + ("-omitdefaults" if omit else "")
 
     def body(ctx):
         with loss_world():
             sim, real = _sym_data(ctx, E, N, D)
             fl_arg, fl = _filters(D, N, fmode)
             w_arg, w = _weights(ctx, D, wmode)
-            impl = MinkowskiLoss(p=p, coordinate_weights=w_arg, coordinate_filters=fl_arg).compute_loss(sim, real)
+            impl = _mk_loss(MinkowskiLoss, omit, p=p, coordinate_weights=w_arg, coordinate_filters=fl_arg).compute_loss(sim, real)
             ref = z3.RealVal(0)
             for i in range(D):
                 cols = _filtered(sim, fl, i)
@@ -154,7 +168,7 @@ def case_minkowski(p, E, N, D, wmode, fmode):
         sim, real = _concrete(cex.values, E, N, D)
         w, cf = _cw(cex.values, D, wmode), _cfilters(D, fmode)
         try:
-            got = MinkowskiLoss(p=p, coordinate_weights=w, coordinate_filters=cf).compute_loss(sim, real)
+            got = _mk_loss(MinkowskiLoss, omit, p=p, coordinate_weights=w, coordinate_filters=cf).compute_loss(sim, real)
         except Exception as e:  # noqa: BLE001
             return True, f"raised {type(e).__name__}: {e}"
         ww = [1.0 / D] * D if w is None else w
@@ -165,8 +179,8 @@ def case_minkowski(p, E, N, D, wmode, fmode):
 
 
 # ---------------------------------------------------------------- MSM
-def case_msm(cov, std, k, E, N, D, wmode, fmode):
-    name = f"msm-{cov}-{'std' if std else 'raw'}-k{k}-E{E}-N{N}-D{D}-{wmode}-{fmode}"
+def case_msm(cov, std, k, E, N, D, wmode, fmode, omit=False):
+    name = f"msm-{cov}-{'std' if std else 'raw'}-k{k}-E{E}-N{N}-D{D}-{wmode}-{fmode}" + ("-omitdefaults" if omit else "")
 
     def body(ctx):
         with loss_world():
@@ -187,7 +201,7 @@ def case_msm(cov, std, k, E, N, D, wmode, fmode):
                 cov_arg = W
             else:
                 cov_arg = cov
-            loss = MethodOfMomentsLoss(covariance_mat=cov_arg, coordinate_weights=w_arg, moment_calculator=calc, coordinate_filters=fl_arg, standardise_moments=std)
+            loss = _mk_loss(MethodOfMomentsLoss, omit, covariance_mat=cov_arg, coordinate_weights=w_arg, moment_calculator=calc, coordinate_filters=fl_arg, standardise_moments=std)
             impl = loss.compute_loss(sim, real)
             ref = 0
             for i in range(D):
@@ -233,7 +247,7 @@ def case_msm(cov, std, k, E, N, D, wmode, fmode):
         else:
             cov_arg = cov
         try:
-            got = MethodOfMomentsLoss(covariance_mat=cov_arg, coordinate_weights=w, moment_calculator=calc, coordinate_filters=cf, standardise_moments=std).compute_loss(sim, real)
+            got = _mk_loss(MethodOfMomentsLoss, omit, covariance_mat=cov_arg, coordinate_weights=w, moment_calculator=calc, coordinate_filters=cf, standardise_moments=std).compute_loss(sim, real)
         except Exception as e:  # noqa: BLE001
             return True, f"raised {type(e).__name__}: {e}"
         ww = [1.0 / D] * D if w is None else w
@@ -260,8 +274,8 @@ def case_msm(cov, std, k, E, N, D, wmode, fmode):
 
 
 # ---------------------------------------------------------------- Fourier
-def case_fourier(ff, fval, E, N, D, wmode, fmode):
-    name = f"fourier-{ff}-f{fval}-E{E}-N{N}-D{D}-{wmode}-{fmode}"
+def case_fourier(ff, fval, E, N, D, wmode, fmode, omit=False):
+    name = f"fourier-{ff}-f{fval}-E{E}-N{N}-D{D}-{wmode}-{fmode}" + ("-omitdefaults" if omit else "")
     filt = ideal_low_pass_filter if ff == "ideal" else gaussian_low_pass_filter
 
     def mask(nf):
@@ -277,7 +291,7 @@ def case_fourier(ff, fval, E, N, D, wmode, fmode):
             sim, real = _sym_data(ctx, E, N, D)
             fl_arg, fl = _filters(D, N, fmode)
             w_arg, w = _weights(ctx, D, wmode)
-            impl = FourierLoss(frequency_filter=filt, f=fval, coordinate_weights=w_arg, coordinate_filters=fl_arg).compute_loss(sim, real)
+            impl = _mk_loss(FourierLoss, omit, frequency_filter=filt, f=fval, coordinate_weights=w_arg, coordinate_filters=fl_arg).compute_loss(sim, real)
             nf = N // 2 + 1
             mk = mask(nf)
             ref = z3.RealVal(0)
@@ -298,7 +312,7 @@ def case_fourier(ff, fval, E, N, D, wmode, fmode):
         sim, real = _concrete(cex.values, E, N, D)
         w, cf = _cw(cex.values, D, wmode), _cfilters(D, fmode)
         try:
-            got = FourierLoss(frequency_filter=filt, f=fval, coordinate_weights=w, coordinate_filters=cf).compute_loss(sim, real)
+            got = _mk_loss(FourierLoss, omit, frequency_filter=filt, f=fval, coordinate_weights=w, coordinate_filters=cf).compute_loss(sim, real)
         except Exception as e:  # noqa: BLE001
             return True, f"raised {type(e).__name__}: {e}"
         ww = [1.0 / D] * D if w is None else w
@@ -345,8 +359,16 @@ def _edges_sym(lo, hi, V):
     return [a + (b - a) * k / V for k in range(V)] + [b]
 
 
-def case_gsl(V, L, E, N, symreal=False, symsim=True):
-    name = f"gsl-V{V}-L{L}-E{E}-N{N}-{'R' if symreal else 'r'}{'S' if symsim else 's'}"
+def _gsl_prior_call(loss, prior_n):
+    """An earlier evaluation of the SAME loss object on other data (another length): must not influence the next value."""
+    if prior_n:
+        loss.compute_loss(np.array([[[_CS[(n * 5 + 1) % 6] + 0.01 * n] for n in range(prior_n)]], dtype=float), np.array([[_CR[(n * 5) % 6] + 0.02 * n] for n in range(prior_n)], dtype=float))
+
+
+def case_gsl(V, L, E, N, symreal=False, symsim=True, defaults=False, prior_n=0):
+    """defaults=True: nb_values / nb_word_lengths left at None (documented default int((N-1)/2) each, must equal V and L)."""
+    name = f"gsl-V{V}-L{L}-E{E}-N{N}-{'R' if symreal else 'r'}{'S' if symsim else 's'}" + ("-defaults" if defaults else "") + (f"-after{prior_n}" if prior_n else "")
+    assert not defaults or (V == L == int((N - 1) / 2.0))
 
     def body(ctx):
         with loss_world(), warnings.catch_warnings():
@@ -356,7 +378,8 @@ def case_gsl(V, L, E, N, symreal=False, symsim=True):
                 real = np.array([[_CR[n]] for n in range(N)], dtype=object)
             if not symsim:
                 sim = np.array([[[_CS[(n + 2 * e) % 6]] for n in range(N)] for e in range(E)], dtype=object)
-            loss = GslDivLoss(nb_values=V, nb_word_lengths=L)
+            loss = GslDivLoss() if defaults else GslDivLoss(nb_values=V, nb_word_lengths=L)
+            _gsl_prior_call(loss, prior_n)
             # symbolisation (forks over bin assignments) vs 'number of edges strictly below'
             def zmin(xs):
                 m = lift(xs[0])
@@ -392,8 +415,9 @@ def case_gsl(V, L, E, N, symreal=False, symsim=True):
             real = np.array([[_CR[n]] for n in range(N)], dtype=float)
         if not symsim:
             sim = np.array([[[_CS[(n + 2 * e) % 6]] for n in range(N)] for e in range(E)], dtype=float)
-        loss = GslDivLoss(nb_values=V, nb_word_lengths=L)
+        loss = GslDivLoss() if defaults else GslDivLoss(nb_values=V, nb_word_lengths=L)
         try:
+            _gsl_prior_call(loss, prior_n)
             got = loss.compute_loss(sim, real)
         except Exception as e:  # noqa: BLE001
             return True, f"raised {type(e).__name__}: {e}"
@@ -404,7 +428,8 @@ def case_gsl(V, L, E, N, symreal=False, symsim=True):
             return [sum(1 for e in edges if e < x) for x in s]
 
         ref = sum(_gsl_ref_member(symb(sim[e, :, 0]), symb(real[:, 0]), L, V, N) for e in range(E)) / E
-        return not _close(got, ref, 1e-9), f"GslDivLoss(nb_values={V}, nb_word_lengths={L}) = {got!r}; tuple-counting definition gives {ref!r} (sim={sim[:, :, 0].tolist()}, real={real[:, 0].tolist()})"
+        what = "GslDivLoss() [defaults]" if defaults else f"GslDivLoss(nb_values={V}, nb_word_lengths={L})"
+        return not _close(got, ref, 1e-9), f"{what}{f' after an evaluation on series of length {prior_n}' if prior_n else ''} = {got!r}; tuple-counting definition with {V} symbols, word lengths 1..{L} gives {ref!r} (sim={sim[:, :, 0].tolist()}, real={real[:, 0].tolist()})"
 
     return Case(name, body, replay, time_budget=400, split=3 if (E * N * symsim + N * symreal) >= 6 else 0)
 
@@ -456,8 +481,8 @@ REGIONS = {"gsl-base10-packing": ("gsl_word_packing_injective", _packing_region)
 
 
 # ---------------------------------------------------------------- likelihood
-def case_likelihood(h, E, N, S, D, fmode):
-    name = f"likelihood-h{h}-E{E}-T{N}-S{S}-D{D}-{fmode}"
+def case_likelihood(h, E, N, S, D, fmode, omit=False):
+    name = f"likelihood-h{h}-E{E}-T{N}-S{S}-D{D}-{fmode}" + ("-omitdefaults" if omit else "")
 
     def bw():
         if h == "silverman":
@@ -472,7 +497,7 @@ def case_likelihood(h, E, N, S, D, fmode):
             sim = ctx.reals("x", (E, S, D))
             real = ctx.reals("y", (N, D))
             fl_arg, fl = _filters(D, S, fmode)
-            impl = LikelihoodLoss(coordinate_filters=fl_arg, h=h).compute_loss(sim, real)
+            impl = _mk_loss(LikelihoodLoss, omit, coordinate_filters=fl_arg, h=h).compute_loss(sim, real)
             hh = bw()
             norm = hh**D * (2 * np.pi) ** (D / 2.0)
             cols = [_filtered(sim, fl, d) for d in range(D)]  # cols[d][e][s]
@@ -499,7 +524,7 @@ def case_likelihood(h, E, N, S, D, fmode):
         with warnings.catch_warnings():
             warnings.simplefilter("ignore")
             try:
-                got = LikelihoodLoss(coordinate_filters=cf, h=h).compute_loss(sim, real)
+                got = _mk_loss(LikelihoodLoss, omit, coordinate_filters=cf, h=h).compute_loss(sim, real)
             except Exception as e:  # noqa: BLE001
                 return True, f"raised {type(e).__name__}: {e}"
         hh = bw()
@@ -521,6 +546,11 @@ def cases(tier, seed):
         cs.append(case_minkowski(p, 2, 3, 2, "sym", "mixed"))
     cs.append(case_minkowski(2, 1, 4, 1, "default", "all"))
     cs.append(case_minkowski(2, 2, 2, 2, "default", "none"))
+    # options left at their documented defaults (constructor called without them)
+    cs.append(case_minkowski(2, 2, 2, 2, "default", "none", omit=True))
+    cs.append(case_msm("identity", False, 2, 2, 2, 2, "default", "none", omit=True))
+    cs.append(case_fourier("gaussian", 0.8, 2, 4, 2, "default", "none", omit=True))
+    cs.append(case_likelihood("silverman", 2, 2, 2, 1, "none", omit=True))
     for cov in ("identity", "inverse_variance", "given"):
         cs.append(case_msm(cov, False, 2, 2, 2, 2, "sym", "mixed"))
     cs.append(case_msm("identity", True, 2, 2, 2, 1, "default", "all"))
@@ -529,6 +559,11 @@ def cases(tier, seed):
         cs.append(case_fourier(ff, fv, 2, 4, 2 if fv == 0.5 else 1, "sym" if fv != 0.3 else "default", "mixed" if fv in (0.5, 0.8) else "none"))
     for V, L, E, N, sr, ssm in [(2, 1, 1, 3, False, True), (2, 2, 1, 3, True, False), (3, 2, 1, 3, False, True), (2, 2, 2, 2, False, True), (3, 1, 1, 4, False, True), (2, 2, 1, 2, True, True)]:
         cs.append(case_gsl(V, L, E, N, sr, ssm))
+    # default options (None -> int((N-1)/2) symbols and word lengths), alone and after an evaluation of the same object on another length
+    cs.append(case_gsl(2, 2, 1, 5, False, True, defaults=True))
+    cs.append(case_gsl(2, 2, 1, 5, False, True, defaults=True, prior_n=7))
+    cs.append(case_gsl(2, 2, 1, 5, True, False, defaults=True, prior_n=9))
+    cs.append(case_gsl(2, 2, 1, 3, False, True, prior_n=8))
     for l in (2, 3):
         cs.append(case_gsl_packing(l))
     for h, D, fm in [("silverman", 1, "none"), ("scott", 2, "mixed"), (0.7, 2, "all"), (1.3, 1, "all")]:
@@ -542,6 +577,8 @@ def cases(tier, seed):
         cs.append(case_fourier("ideal", 0.8, 2, 5, 2, "sym", "mixed"))
         for V, L, E, N, sr, ssm in [(4, 2, 1, 4, False, True), (3, 3, 1, 4, True, False), (2, 2, 2, 3, False, True), (3, 2, 1, 3, True, True), (4, 3, 1, 5, False, True)]:
             cs.append(case_gsl(V, L, E, N, sr, ssm))
+        cs.append(case_gsl(3, 3, 1, 7, False, True, defaults=True, prior_n=4))
+        cs.append(case_gsl(2, 2, 2, 6, True, False, defaults=True, prior_n=12))
         cs.append(case_likelihood("silverman", 3, 2, 3, 2, "mixed"))
         cs.append(case_likelihood(0.5, 2, 3, 2, 3, "all"))
     return cs
